@@ -131,6 +131,13 @@ def c10_equivalent(n, seed, procs):
         ("tests.additional_complexified_examples_tests.proximal_gradient_useless_partition", "wc_proximal_gradient_complexified2", "PEPit.examples.composite_convex_minimization.proximal_gradient", "wc_proximal_gradient", dict(L=1, mu=.1, gamma=1, n=2)),
         ("tests.additional_complexified_examples_tests.gradient_exact_line_search", "wc_gradient_exact_line_search_complexified", "PEPit.examples.unconstrained_convex_minimization.gradient_exact_line_search", "wc_gradient_exact_line_search", dict(L=3, mu=.1, n=1)),
         ("tests.additional_complexified_examples_tests.gradient_descent_useless_blocks", "wc_gradient_descent_useless_blocks", "PEPit.examples.unconstrained_convex_minimization.gradient_descent", "wc_gradient_descent", dict(L=1, gamma=1.0, n=3)),
+        # formulations of our own (harness/equiv_forms.py): the initial condition as an LMI with constant entries on the PEP / on the
+        # function, as a function-level constraint, registered twice; the metric through an epigraph variable
+        ("equiv_forms", "wc_proximal_point_lmi_on_function", "PEPit.examples.unconstrained_convex_minimization.proximal_point", "wc_proximal_point", dict(gamma=1.5, n=3)),
+        ("equiv_forms", "wc_proximal_point_lmi_on_pep", "PEPit.examples.unconstrained_convex_minimization.proximal_point", "wc_proximal_point", dict(gamma=2.5, n=2)),
+        ("equiv_forms", "wc_proximal_point_condition_on_function", "PEPit.examples.unconstrained_convex_minimization.proximal_point", "wc_proximal_point", dict(gamma=1.0, n=3)),
+        ("equiv_forms", "wc_proximal_point_condition_twice", "PEPit.examples.unconstrained_convex_minimization.proximal_point", "wc_proximal_point", dict(gamma=0.7, n=4)),
+        ("equiv_forms", "wc_gradient_descent_epigraph", "PEPit.examples.unconstrained_convex_minimization.gradient_descent", "wc_gradient_descent", dict(L=2, gamma=0.5, n=3)),
     ]
     rnd = random.Random(seed)
     jobs = []
@@ -142,7 +149,7 @@ def c10_equivalent(n, seed, procs):
     fails, samples = [], []
     for k, (m1, f1, m2, f2, a) in enumerate(pairs):
         r1, r2 = res[2 * k], res[2 * k + 1]
-        desc = dict(variant=m1.split(".")[-1], plain=m2.split(".")[-1], args=jobs[2 * k][2])
+        desc = dict(variant=(f1 if m1 == "equiv_forms" else m1.split(".")[-1]), plain=m2.split(".")[-1], args=jobs[2 * k][2])
         if r1["err"] or r2["err"]:
             if r1["err"] and "TypeError" in r1["err"] and "argument" in r1["err"]: continue   # signature differs: not comparable
             if "SolverError" in (r1["err"] or "") + (r2["err"] or ""): continue
